@@ -50,6 +50,19 @@ SelfValues == { SN(<<1, 2>>, 2024, None, <<>>),
                 SN(<<104, 101>>, 2024, SN(<<255, 116>>, 2023, None, <<>>), <<>>),
                 SN(<<1>>, 2024, SN(<<2>>, 2023, SN(<<3>>, 2022, None, <<>>), <<>>), << SN(<<4>>, 2021, None, <<>>), SN(<<5>>, 2020, None, << SN(<<6>>, 2019, None, <<>>) >>) >>) }
 
+\* a hierarchy discriminated at class level (Config.discriminator on the base, the tag is an ordinary defaulted field of the
+\* variant) with the format's mixin: Base.from_<format>(variant.to_<format>()) is the variant -- its native-typed fields included --
+\* whether the dispatch or a holder nesting the variant is the first use of the variant under that format
+DBaseF(f) == <<"dc", "Ev", << <<"n", <<"int">>, <<"req">>, <<>> >> >>,
+               << <<"mixin", f>>, <<"discriminator", << <<"field", "type">>, <<"include_subtypes", TRUE>> >> >>, <<"discr_field", "type">> >> >>
+DVarF(f) == <<"dc", "Blob", << <<"n", <<"int">>, <<"req">>, <<>> >>, <<"raw", <<"bytes">>, <<"req">>, <<>> >>, <<"when", <<"date">>, <<"req">>, <<>> >>,
+                               <<"stamps", <<"list", <<"datetime">> >>, <<"fac", L(<<>>)>>, <<>> >>,
+                               <<"type", <<"str">>, <<"val", S("blob")>>, <<>> >> >>,
+              << <<"mixin", f>>, <<"bases", <<DBaseF(f)>> >>, <<"no_config", TRUE>> >> >>
+DHoldF(f) == <<"dc", "BlobHold", << <<"b", DVarF(f), <<"req">>, <<>> >>, <<"bs", <<"list", DVarF(f)>>, <<"fac", L(<<>>)>>, <<>> >> >>, << <<"mixin", f>> >> >>
+DValues == { <<"obj", "Blob", <<I(1), <<"bytes", <<1, 2, 255>> >>, <<"date", 2024, 2, 3>>, L(<<>>), S("blob")>> >>,
+             <<"obj", "Blob", <<I(2), <<"bytes", <<>> >>, <<"date", 1999, 12, 31>>, L(<< <<"datetime", 2024, 1, 2, 3, 4, 5, 0, Naive>> >>), S("blob")>> >> }
+
 \* ---- representable subset of each format (statement C04)
 RECURSIVE HasAwareTime(_)
 HasAwareTime(x) ==
@@ -95,6 +108,7 @@ Init == F = "none" /\ T = <<"start">> /\ v = <<"nov">> /\ kind = "start"
 Next == \/ kind = "start" /\ F' \in Formats /\ \E t \in Shapes(F'), p \in BOOLEAN : T' = HolderF(F', t, p) /\ v' = v /\ kind' = "type"
         \/ kind = "start" /\ F' \in Formats /\ T' = SelfT(F', 3) /\ v' = v /\ kind' = "selftype"
         \/ kind = "selftype" /\ F' = F /\ T' = T /\ v' \in SelfValues /\ kind' = "value"
+        \/ kind = "start" /\ F' \in Formats /\ T' = DVarF(F') /\ v' \in DValues /\ kind' = "dvalue"
         \/ kind = "type" /\ F' = F /\ T' = T /\ v' \in { x \in Range(Smp(T)) : Representable(F, x) /\ NullsRestorable(F, T, x) } /\ kind' = "value"
 
 Doc == Parsed(Pack(T, CxF(F), v))
@@ -111,7 +125,8 @@ SameModuloNative(f, d, b) ==
     [] d[1] \in {"datetime", "date", "time"} -> f = "toml" /\ b = S(IsoOf(d))
     [] d[1] = "bytes" -> f = "msgpack" /\ b[1] = "str"
     [] OTHER -> d = b
-NothingElseDiffers == kind = "value" => SameModuloNative(F, Doc, Basic)
+NothingElseDiffers == kind \in {"value", "dvalue"} => SameModuloNative(F, Doc, Basic)
 
-EmitInv == kind = "value" => PrintT(ToJson(<<"fvec", F, T, v, Doc>>))
+EmitInv == /\ kind = "value" => PrintT(ToJson(<<"fvec", F, T, v, Doc>>))
+           /\ kind = "dvalue" => PrintT(ToJson(<<"dfvec", F, DBaseF(F), T, DHoldF(F), v, Doc>>))
 =============================================================================
